@@ -1,0 +1,20 @@
+//go:build verif
+
+package strz
+
+// Ghost clients: compiled only under the "verif" build tag. Each one composes two public functions so
+// that a round-trip property becomes one verified postcondition over the callees' contracts.
+
+func verifOctalRoundTrip(s []byte) ([]byte, int) {
+	b := OctalFormat(s)
+	d := make([]byte, len(b))
+	n := OctalParse(d, b)
+	return d, n
+}
+
+func verifHexRoundTrip(s []byte) ([]byte, int) {
+	b := HexFormat(s)
+	d := make([]byte, len(b))
+	n := HexParse(d, b)
+	return d, n
+}
